@@ -117,6 +117,10 @@ def mutations(n):
                     import copy
                     pr = copy.deepcopy(x["EDIF.properties"])
                     x["EDIF.properties"] = pr[:-1] if how == "last" else pr[1:] if how == "first" else []
+                def more(x=x):
+                    import copy
+                    x["EDIF.properties"] = copy.deepcopy(x["EDIF.properties"]) + [{"identifier": "ZZ_EXTRA", "value": "1"}]
+                out.append(("property-added", more))
                 out.append(("property-dropped:last", lambda x=x: cut(x, "last")))
                 out.append(("property-dropped:first", lambda x=x: cut(x, "first")))
                 out.append(("property-dropped:all", lambda x=x: cut(x, "all")))
@@ -134,6 +138,8 @@ def mutations(n):
             out.append(("drop-cable", dropc))
         if d.ports and d is not n.top_instance.reference:
             out.append(("add-instance", lambda d=d: n.top_instance.reference.create_child(name="zz_new", reference=d)))
+    if n.top_instance is not None:
+        out.append(("drop-top-instance", lambda: setattr(n, "top_instance", None)))
     for l in n.libraries:
         out.append(("add-definition", lambda l=l: l.create_definition(name="zz_new")))
     out.append(("add-library", lambda: n.create_library(name="zz_new")))
@@ -280,6 +286,20 @@ def worker(case):
     r = compare(a, b)
     if r is None:
         probs.append(("difference-accepted:%s:%s" % (label, tag), "Comparer returned normally for a copy mutated by %s (mutation #%d)" % (label, idx)))
+    else:
+        # the same comparer asked a second time: still a difference
+        from spydrnet.compare.compare_netlists import Comparer
+        cmpr = Comparer(a, b)
+        verdicts = []
+        for _ in range(2):
+            try:
+                with core.quiet():
+                    cmpr.compare()
+                verdicts.append(None)
+            except BaseException as ex:
+                verdicts.append(type(ex).__name__)
+        if verdicts[0] is not None and verdicts[1] is None:
+            probs.append(("difference-accepted:%s:%s:asked-again" % (label, tag), "the same Comparer refused the copy, then accepted it (mutation #%d)" % idx))
     return {"key": core.digest(case), "nontrivial": True, "outcome": label.split(":")[0], "problems": probs, "transitions": 1}
 
 
